@@ -331,100 +331,74 @@ func ruleShortCircuit(w *World, r *Report) {
 			flagField = f.Var
 		}
 	}
-	type outcome struct {
-		kind string // "true" | "false" | "right" | "?"
-	}
-	evalCond := func(v ssa.Value, flag, left bool) (bool, bool) {
-		neg := false
-		for {
-			if u, ok := v.(*ssa.UnOp); ok && u.Op == token.NOT {
-				neg = !neg
-				v = u.X
-				continue
-			}
-			break
-		}
-		var val bool
-		if v == ssa.Value(lt) {
-			val = left
-		} else if f, ok := recvFieldLoad(v); ok && f == flagField {
-			val = flag
-		} else if bo, ok := v.(*ssa.BinOp); ok && (bo.Op == token.EQL || bo.Op == token.NEQ) {
-			// flag == left etc.
-			get := func(x ssa.Value) (bool, bool) {
-				if x == ssa.Value(lt) {
-					return left, true
-				}
-				if f, ok := recvFieldLoad(x); ok && f == flagField {
-					return flag, true
-				}
-				if c, ok := x.(*ssa.Const); ok && c.Value != nil && c.Value.Kind() == constant.Bool {
-					return constant.BoolVal(c.Value), true
-				}
-				return false, false
-			}
-			a, ok1 := get(bo.X)
-			b, ok2 := get(bo.Y)
-			if !ok1 || !ok2 {
-				return false, false
-			}
-			val = a == b
-			if bo.Op == token.NEQ {
-				val = !val
-			}
-		} else {
-			return false, false
-		}
-		if neg {
-			val = !val
-		}
-		return val, true
-	}
+	// the decision table, by constant propagation through Evaluate: the flag and
+	// the truth of the left operand are constants, the right operand's
+	// evaluation is recorded ("right" when its truth value is what is returned)
+	lfv, _ := recvFieldLoad(first.Call.Value)
+	rfv, _ := recvFieldLoad(second.Call.Value)
+	truthFn := lt.Call.StaticCallee()
 	simulate := func(flag, left bool) string {
-		b := lt.Block()
-		for steps := 0; steps < 32; steps++ {
-			for _, in := range b.Instrs {
-				if in == ssa.Instruction(second) {
-					return "right"
-				}
-			}
-			last := b.Instrs[len(b.Instrs)-1]
-			switch x := last.(type) {
-			case *ssa.Return:
-				v := strip(retVal(x, 0))
-				if mi, ok := v.(*ssa.MakeInterface); ok {
-					v = mi.X
-				}
-				if c, ok := v.(*ssa.Const); ok && c.Value != nil && c.Value.Kind() == constant.Bool {
-					if constant.BoolVal(c.Value) {
-						return "true"
-					}
-					return "false"
-				}
-				if v == ssa.Value(lt) {
-					if left {
-						return "true"
-					}
-					return "false"
-				}
-				return "?"
-			case *ssa.Jump:
-				b = b.Succs[0]
-			case *ssa.If:
-				c, ok := evalCond(x.Cond, flag, left)
-				if !ok {
-					return "?"
-				}
-				if c {
-					b = b.Succs[0]
-				} else {
-					b = b.Succs[1]
-				}
-			default:
-				return "?"
+		st := w.initState()
+		obj := st.newObj(bq.Named, nil)
+		obj.Extern = true
+		bst := bq.Named.Underlying().(*types.Struct)
+		for i := 0; i < bst.NumFields(); i++ {
+			switch bst.Field(i) {
+			case flagField:
+				obj.Fields[i] = aBool(flag)
+			case lfv:
+				obj.Fields[i] = AVal{Kind: avUnknown, Tag: "L"}
+			case rfv:
+				obj.Fields[i] = AVal{Kind: avUnknown, Tag: "R"}
 			}
 		}
-		return "?"
+		var hooks AHooks
+		hooks.Call = func(ai *AInterp, s2 *AState, site ssa.CallInstruction, callee *ssa.Function, args []AVal) (bool, AVal) {
+			if site.Common().IsInvoke() && site.Common().Method.Name() == ev && len(args) > 0 {
+				switch args[0].Tag {
+				case "L":
+					return true, AVal{Kind: avUnknown, Tag: "lval"}
+				case "R":
+					return true, AVal{Kind: avUnknown, Tag: "rval"}
+				}
+			}
+			if callee == truthFn && len(args) == 2 {
+				switch args[1].Tag {
+				case "lval":
+					return true, aBool(left)
+				case "rval":
+					return true, AVal{Kind: avUnknown, Tag: "truth(right)"}
+				}
+			}
+			return false, AVal{}
+		}
+		ai := w.newInterp(hooks)
+		outs := ai.Exec(fn, []AVal{{Kind: avPtr, Obj: obj, Field: -1}, {Kind: avUnknown, Tag: "t"}}, nil, st)
+		res := ""
+		for _, o := range outs {
+			got := "?"
+			switch {
+			case o.Cut || o.Panicked:
+			case o.Ret.Tag == "truth(right)":
+				got = "right"
+			default:
+				if bv, ok := o.Ret.Bool(); ok {
+					if bv {
+						got = "true"
+					} else {
+						got = "false"
+					}
+				}
+			}
+			if res != "" && res != got {
+				return "?"
+			}
+			res = got
+		}
+		if res == "" {
+			return "?"
+		}
+		return res
 	}
 	want := map[[2]bool]string{{true, true}: "true", {true, false}: "right", {false, true}: "right", {false, false}: "false"}
 	okAll := true
